@@ -27,8 +27,24 @@ def _orient(V, T):
     return out
 
 
+# a convex mesh whose vertex 0 is an interior point of the cloud, referenced by no triangle
+# (what make_convex_mesh returns for a point cloud with interior points)
+TETRA_IN_V = [[0.0, 0.0, 0.0]] + TETRA_V
+TETRA_IN_T = [[i + 1 for i in tri] for tri in _orient(TETRA_V, TETRA_T)]
+
+
+def _mixed(T):
+    """Arbitrary winding / vertex order inside the triangles (what raw scipy ConvexHull.simplices give);
+    allowed for MeshGraph, whose support function must not depend on it."""
+    out = []
+    for n, (i, j, k) in enumerate(T):
+        out.append([[i, j, k], [k, j, i], [j, i, k], [k, i, j]][n % 4])
+    return out
+
+
 MESHES = {"tetra": (TETRA_V, _orient(TETRA_V, TETRA_T)), "cube": (CUBE_V, _orient(CUBE_V, CUBE_T)),
-          "octa": (OCTA_V, _orient(OCTA_V, OCTA_T))}
+          "octa": (OCTA_V, _orient(OCTA_V, OCTA_T)), "tetra_in": (TETRA_IN_V, TETRA_IN_T),
+          "octa_mixed": (OCTA_V, _mixed(_orient(OCTA_V, OCTA_T))), "cube_mixed": (CUBE_V, _mixed(_orient(CUBE_V, CUBE_T)))}
 
 
 def transpose(A):
@@ -168,7 +184,10 @@ class Shape:
         for i, j, k in Tr:
             a, b, c = V[i], V[j], V[k]
             n = CROSS(SUB(b, a), SUB(c, a))
-            out.append((n, DOT(n, a)))
+            off = DOT(n, a)
+            if off < 0:          # origin is strictly inside every corpus mesh
+                n, off = [-x for x in n], -off
+            out.append((n, off))
         return out
 
     def in_hull(self, q, tol):
@@ -224,6 +243,9 @@ CORPUS = [
     {"type": "mesh", "mesh": "octa"},
     {"type": "hull", "mesh": "cube"},
     {"type": "hull", "mesh": "octa", "dup": True},
+    {"type": "mesh", "mesh": "tetra_in"},
+    {"type": "mesh", "mesh": "octa_mixed"},
+    {"type": "mesh", "mesh": "cube_mixed"},
 ]
 CORPUS_MORE = [
     {"type": "sphere", "radius": 100.0},
@@ -236,3 +258,35 @@ CORPUS_MORE = [
     {"type": "mesh", "mesh": "cube"},
     {"type": "hull", "mesh": "tetra"},
 ]
+
+
+def support_value(shape, dl):
+    """h(dl) in the local frame as an explicit expression (uses SQRT: one radical per smooth shape)."""
+    s, T = shape.spec, shape.type
+    dx, dy, dz = dl
+    if T == "sphere":
+        return s["radius"] * SQRT(NORM2(dl))
+    if T == "ellipsoid":
+        a, b, c = s["radii"]
+        return SQRT((a * dx) * (a * dx) + (b * dy) * (b * dy) + (c * dz) * (c * dz))
+    if T == "capsule":
+        return 0.5 * s["height"] * ABS(dz) + s["radius"] * SQRT(NORM2(dl))
+    if T == "cylinder":
+        return 0.5 * s["length"] * ABS(dz) + s["radius"] * SQRT(dx * dx + dy * dy)
+    if T == "cone":
+        return MAX(s["radius"] * SQRT(dx * dx + dy * dy), s["height"] * dz)
+    if T == "box":
+        h = 0.0
+        for c, sz in zip(dl, s["size"]):
+            h = h + 0.5 * sz * ABS(c)
+        return h
+    if T == "disk":
+        return s["radius"] * SQRT(dx * dx + dy * dy)
+    if T == "ellipse":
+        a, b = s["radii"]
+        return SQRT((a * dx) * (a * dx) + (b * dy) * (b * dy))
+    if T in ("mesh", "hull"):
+        return MAX(*[DOT(v, dl) for v in shape.local_vertices()])
+    if T == "margin":
+        return support_value(Shape(s["inner"]), dl) + s["margin"] * SQRT(NORM2(dl))
+    raise KeyError(T)
